@@ -1,10 +1,10 @@
 #!/bin/bash
 # usage: seed_matrix.sh [seed names...]  -> for each seeded change: scratch copy of /repo with the patch, run the check of its property
 # (VERIF_REPO points the checks at the scratch copy; /repo itself is not touched). Output: one line per seed.
-cd /verif
+cd "$(dirname "$(readlink -f "$0")")/.."; V=$(pwd)
 seeds="$@"; [ -z "$seeds" ] && seeds=$(ls seeded | grep -v "^harmless_" | grep -v MATRIX)
 for name in $seeds; do
-  d=/verif/seeded/$name; prop=${name:0:3}
+  d=$V/seeded/$name; prop=${name:0:3}
   tmp=$(mktemp -d /tmp/seedm.XXXX); mkdir -p $tmp/repo; cp -r /repo/src $tmp/repo/
   if (cd $tmp/repo && git init -q . && git apply $d/patch.diff 2>/dev/null); then
      out=$(VERIF_REPO=$tmp/repo timeout 1200 python3-vt check.py $prop 2>&1); rc=$?
